@@ -177,6 +177,17 @@ pub fn run_c13(case: &Case) -> Outcome {
             );
         }
     }
+    // a buffering local side: what the bridge wrote to it is only out once a flush (or the shutdown) has completed. The bridge flushes
+    // the local writer whenever a poll finds the local read pending at its first attempt; so if the last thing that happened on the
+    // local side is such a poll and bytes are still unflushed, nothing will ever flush them (no wake-up source is left at quiescence)
+    if done.is_none() && local_err.is_none() {
+        let last = run.app_events().filter_map(|(_, e)| if let AppEv::Note(n) = e { n.strip_prefix("lstate ").map(str::to_string) } else { None }).last();
+        if let Some(l) = last {
+            if l.contains("after=read-pending") && l.contains("first-of-poll=1") {
+                viol!("c13-local-writes-not-flushed", "bytes the bridge wrote to the local side are still held back by it ({l}): the last poll of the bridge found the local read pending at its first attempt and went to sleep without a completed flush of the local writer, and nothing is left to wake it");
+            }
+        }
+    }
     // bytes the application read from the stream by hand before it handed the stream to the bridge: not relayed by the bridge
     let pre = run.app_events().find_map(|(_, e)| if let AppEv::Note(n) = e { n.strip_prefix("pre-read ").and_then(|x| x.parse::<usize>().ok()) } else { None }).unwrap_or(0);
     // (5) both directions ended => the future returns the two true byte counts
@@ -247,7 +258,7 @@ pub fn burst_case(i: u64) -> Case {
 }
 
 pub fn c13(ctx: &Ctx, rep: &mut Report) {
-    rep.rule = "MuxStream::into_copy_bidirectional_with_buf (and, in a third of the cases, the default into_copy_bidirectional) over a scripted local AsyncBufRead+AsyncWrite: read half = chunks (1..20000 bytes; a directed family with 1 MiB / 16 MiB / 64 MiB ready at once), Pending until a harness event, Pending for ever, EOF or error at any position; write half = partial accepts, Pending points, error; flush/shutdown errors or delays; every scripted failure carries one of 12 generated io::ErrorKinds (NotConnected, ConnectionReset, BrokenPipe, TimedOut, ...); in a third of the cases the application first reads from the stream by hand (one poll_read of 1-3 or 200 bytes, typically the beginning of a frame) and converts it into the bridge afterwards; \
+    rep.rule = "MuxStream::into_copy_bidirectional_with_buf (and, in a third of the cases, the default into_copy_bidirectional) over a scripted local AsyncBufRead+AsyncWrite: read half = chunks (1..20000 bytes; a directed family with 1 MiB / 16 MiB / 64 MiB ready at once), Pending until a harness event, Pending for ever, EOF or error at any position; write half = partial accepts, Pending points, error; flush/shutdown errors or delays; the local side counts as BUFFERING (what the bridge wrote is only out once a flush or the shutdown has completed: a poll of the bridge that finds the local read pending at its first attempt must not go to sleep on unflushed bytes); every scripted failure carries one of 12 generated io::ErrorKinds (NotConnected, ConnectionReset, BrokenPipe, TimedOut, ...); in a third of the cases the application first reads from the stream by hand (one poll_read of 1-3 or 200 bytes, typically the beginning of a frame) and converts it into the bridge afterwards; \
                 the peer end is a real application (data, shutdown, drop, late reader = credit starvation) on a second real endpoint, with generated options, link back-pressure and schedule. Oracle: content function in both directions (exactly the bytes, in order), C03 window rule for the bridge's Push frames, Finish on local EOF, local shutdown after the peer's Finish, \
                 true byte counts on completion, and after any failed local operation the future must be complete at quiescence with an error. Non-trivial = the script has a Pending point and a partial write, or an error, or a peer abort. Distinct = distinct case value."
         .into();
